@@ -13,7 +13,7 @@ import os
 from . import common, hist, pipeline, progs
 
 DESIGN_REF = "DESIGN.md §5 C04"
-ASSUMPTIONS = ["DBFS (fake dbutils) is covered by C19's check; kept values are strings (stored verbatim by the string codec)"]
+ASSUMPTIONS = ["the DBFS store runs over a fake dbutils (local directory); kept values are strings (stored verbatim by the string codec)"]
 
 
 def run(ctx):
@@ -85,6 +85,11 @@ def run(ctx):
         # reverts bring back signatures the store already holds - the inner paths must follow
         recs += hist.run_histories(ctx, res, 60 if thorough else 14, 5, store_kinds=("memory", "local"), on_record=on_record, at_step=at_step,
                                    edit_kinds=["var", "revert", "body", "revert", "const_arg", "revert"], entry_kind="keep")
+        # the same call kept under several paths (aliases) and the same path kept by several parents, on every store kind incl.
+        # the DBFS store over the fake dbutils
+        recs += hist.run_histories(ctx, res, 40 if thorough else 10, 4, store_kinds=("dbfs", "memory", "local", "dbfs"), on_record=on_record, at_step=at_step,
+                                   edit_kinds=["body", "revert", "body", "var", "none"], allow="shared")
+        recs += hist.run_histories(ctx, res, 30 if thorough else 6, 5, store_kinds=("dbfs",), on_record=on_record, at_step=at_step)
     finally:
         if fresh[0] is not None:
             fresh[0].close()
@@ -92,7 +97,7 @@ def run(ctx):
         r0 = recs[len(recs) // 2]
         res.sample({"step": r0.brief(), "paths": r0.ref_paths, "loads": r0.loads})
     pipeline.close_ref()
-    res.rule = ("seeded histories as in C01 over stores {memory, local, local+cache}; path shapes /pN, /d/qN, /d/e/rN, /dfN, /top (1..3 segments, "
+    res.rule = ("seeded histories as in C01 over stores {memory, local, local+cache, DBFS over a fake dbutils}, plus pipelines where one call is kept under several paths / one path by several parents; path shapes /pN, /d/qN, /d/e/rN, /dfN, /top (1..3 segments, "
                 "shared directories); after each step every path kept so far is loaded (same process, fresh process, raw file); one case = "
                 "one evaluation step")
     res.violations = res.violations[:5]
